@@ -63,11 +63,11 @@ def run_vectors(rep, seed, n):
     r = cb.tlc("ClientBig", "ClientBig.cfg", "vec_" + rep.pid, workers=1, timeout=1800, env={"VEC": vec}, java_opts=["-Xss1g"])
     bad = {}
     for k in ("BADKIND", "BADSTATUS", "BADINTERVAL"):
-        m = re.search(r'<<"%s", \{([^}]*)\}>>' % k, r.out.replace("\n", " "))
+        m = re.search(r'<<\s*"%s",\s*\{([^}]*)\}\s*>>' % k, r.out.replace("\n", " "))
         if not m:
             raise ToolError("TLC oracle output not understood: " + r.out[-1500:])
         bad[k] = [int(x) for x in m.group(1).replace(" ", "").split(",") if x]
-    m = re.search(r'<<"CHECKED", (\d+)>>', r.out)
+    m = re.search(r'<<\s*"CHECKED",\s*(\d+)\s*>>', r.out)
     checked = int(m.group(1)) if m else 0
     if checked != summ["vectors"]:
         raise ToolError(f"TLC oracle evaluated {checked} of {summ['vectors']} vectors")
